@@ -47,6 +47,15 @@ func (e *G2) Unmarshal''', '''	montDecode(temp, &e.p.y.y)
 // Unmarshal sets e to the result of converting the output of Marshal back into
 // a group element and then returns e.
 func (e *G2) Unmarshal'''),
+ ('M10 curvePoint.Add loses its doubling exit (P + P computed by the chord formula)', G+'bn256/curve.go', '''	if xEqual && yEqual {
+		c.Double(a)
+		return
+	}
+	r := &gfP{}''', '''	_, _ = xEqual, yEqual
+	r := &gfP{}'''),
+ ('M11 AggregatePubkeys skips the second key', G+'pubkey.go', '''	for i := 1; i < len(pubs); i++ {
+		pub.add(&pubs[i])''', '''	for i := 2; i < len(pubs); i++ {
+		pub.add(&pubs[i])'''),
  ('H1 harmless: rename local bQ and swap two independent statements in VerifySig', G+'sig.go', '''	bQ := bn_curve.GetG2Base()
 	p1 := bn_curve.Pair(&sig.value, bQ)
 
